@@ -20,6 +20,11 @@ def exec_route(spec, env):
     vs = rt.variables_of(spec["d"])
     supplied = spec.get("supplied", vs)
     outs = []
+    if spec.get("pre_variant"):
+        # a DIFFERENT expression (same shape, another constant) is differentiated symbolically first, in the same process
+        v = rt.build(spec["pre_variant"], env, {})
+        outs.append(rt.outcome(lambda: [sm.Partial(v, spec["var"]).as_expression(), sm.Partial(v, spec["var"], compute_early=True),
+                                        sm.Differential(v, compute_early=True), v._normalize()] and 0))
     for (r, target, pname) in spec.get("pre", []):
         tgt = e if target == "root" else memo[target]
         if r == "embed":
@@ -75,7 +80,7 @@ def input_names(spec):
     for pn in pre_points:
         for v in spec.get("pre_supplied", vs):
             names.append(pn + "_" + v)
-    for s in rt.syms_of(spec["d"]):
+    for s in rt.syms_of(spec["d"]) + (rt.syms_of(spec["pre_variant"]) if spec.get("pre_variant") else []):
         if s not in names:
             names.append(s)
     return names
